@@ -447,7 +447,7 @@ def discharge(E, obs, tier="quick", jobs=None, log=None, inproc_ms=None, timeout
 def _discharge_par(E, obs, tier, jobs, log, inproc_ms, timeout, solvers, refine):
     """fork worker processes (each inherits the z3 terms) when there are many obligations"""
     import json
-    nw = int(E.cfg.get("workers", min(12, os.cpu_count() or 4)))
+    nw = int(os.environ.get("VERIF_WORKERS") or E.cfg.get("workers", min(12, os.cpu_count() or 4)))
     todo = [o for o in obs]
     if len(todo) < 24 or nw <= 1 or os.environ.get("VERIF_NOFORK"):
         return _discharge(E, obs, tier, jobs, log, inproc_ms, timeout, solvers, refine)
@@ -524,8 +524,8 @@ def _discharge_par(E, obs, tier, jobs, log, inproc_ms, timeout, solvers, refine)
 def _discharge(E, obs, tier, jobs, log, inproc_ms, timeout, solvers, refine):
     """decide every obligation.  Stage 1: in-process z3 with a short timeout.
     Stage 2: 4-way portfolio on SMT-LIB2 files."""
-    timeout = timeout or (60 if tier == "quick" else 600)
-    inproc_ms = inproc_ms if inproc_ms is not None else (3000 if tier == "quick" else 5000)
+    timeout = timeout or (90 if tier == "quick" else 600)
+    inproc_ms = inproc_ms if inproc_ms is not None else (4000 if tier == "quick" else 5000)
     jobs = jobs or 5
     str_ax = E.str_axioms()
     pending = []
